@@ -1,6 +1,6 @@
 (* Response-parser proofs, part 5: concrete witnesses (vm_compute) - the refutations of the
-   unrestricted splitting statements by the two places where the lax CR skipping depends on the read
-   boundary, the CR/LF boundary at a line limit, and non-vacuity examples. *)
+   unrestricted splitting statements by the place where the lax CR skipping depends on the read
+   boundary (the second such place, after the last-chunk line, was repaired: eb945bb), the CR/LF boundary at a line limit, and non-vacuity examples. *)
 From AV Require Import Lib.Base Lib.BytesX Lib.Utf8Decode Generated.HttpGen Generated.HttpRespGen Model.Http Model.HttpResp
   Proofs.HttpSegBase Proofs.HttpRespBase Proofs.HttpRespChunk Proofs.HttpRespSeg Proofs.HttpRespLimits.
 Open Scope N_scope.
@@ -50,10 +50,11 @@ Proof. vm_compute. reflexivity. Qed.
 Lemma r2_cd_eq : rfeed rcfg0 (fst (fst r1_cd)) w_d (snd (fst r1_cd)) = (fst (fst r2_cd), snd (fst r2_cd), OOk []).
 Proof. vm_compute. reflexivity. Qed.
 
-(* the read boundary states of the two witnesses are exactly the two unclean ones *)
+(* the read boundary state of the double-CR witness is the unclean one; the boundary after the
+   last-chunk line is an ordinary trailers state since the repair *)
 Lemma witnesses_unclean :
   pkind_of (fst (fst r1_ab)) = Some (RChunked (RDataEnd true), [], []) /\ rclean_st (fst (fst r1_ab)) = false /\
-  pkind_of (fst (fst r1_cd)) = Some (RChunked RTrail0, [], []) /\ rclean_st (fst (fst r1_cd)) = false.
+  pkind_of (fst (fst r1_cd)) = Some (RChunked RTrailers, [], []) /\ rclean_st (fst (fst r1_cd)) = true.
 Proof. vm_compute. repeat split. Qed.
 
 Definition split_accept_statement : Prop :=
@@ -70,19 +71,11 @@ Proof.
   pose proof r12_ab_one as E2. rewrite E in E2. discriminate.
 Qed.
 
-(* a CR right after the last-chunk line: both reads return normally, but the split run has collected the
-   trailer line "CR X: y" where the one-read run has "X: y" (the next read tells them apart) *)
-Lemma refute_split_cr_after_last_chunk : ~ split_accept_statement.
-Proof.
-  intro H. pose proof (H _ _ _ _ _ _ _ _ _ _ _ rwf_init r1_cd_eq r2_cd_eq) as E.
-  assert (E2 : pkind_of (fst (fst (rfeed rcfg0 rinit (w_c ++ w_d) []))) = Some (RChunked RTrailers, [], [[88; 58; 32; 121]]))
-    by (vm_compute; reflexivity).
-  rewrite E in E2. vm_compute in E2. discriminate.
-Qed.
-
-Lemma cd_split_vs_one :
+(* a CR right after the last-chunk line (former witness of C03-lax-cr-after-last-chunk, repaired in
+   eb945bb): split and one read now collect the same trailer line "CR X: y" and end in the same state *)
+Lemma cd_split_eq_one :
   pkind_of (fst (fst r2_cd)) = Some (RChunked RTrailers, [], [[13; 88; 58; 32; 121]]) /\
-  pkind_of (fst (fst (rfeed rcfg0 rinit (w_c ++ w_d) []))) = Some (RChunked RTrailers, [], [[88; 58; 32; 121]]).
+  rfeed rcfg0 rinit (w_c ++ w_d) [] = (fst (fst r2_cd), snd (fst r2_cd), OOk []).
 Proof. vm_compute. split; reflexivity. Qed.
 
 Definition seg_accept_statement : Prop :=
@@ -100,12 +93,15 @@ Proof.
   rewrite E1 in E2. discriminate.
 Qed.
 
-(* reject direction: accepted in one read, rejected when split *)
-Lemma refute_reject_cr_after_last_chunk :
+(* "0 CRLF" | "CR X: y CRLF CRLF": rejected identically in one read and when split (it used to be accepted
+   in one read); the boundary is inside the theorems *)
+Lemma ex_cr_after_last_chunk_fixed :
+  rboundaries_clean rcfg0 rinit [w_c; w_d2] [] = true /\
   rdigest (rrun_segs rcfg0 rinit [w_c; w_d2] [] []) = (OErr EInvalidHeader, [(200, [97; 98; 99], [3], false, Some EInvalidHeader)]) /\
-  rdigest (rrun_segs rcfg0 rinit [concat [w_c; w_d2]] [] []) = (OOk [], [(200, [97; 98; 99], [3], true, None)]).
-Proof. vm_compute. split; reflexivity. Qed.
+  rdigest (rrun_segs rcfg0 rinit [concat [w_c; w_d2]] [] []) = (OErr EInvalidHeader, [(200, [97; 98; 99], [3], false, Some EInvalidHeader)]).
+Proof. vm_compute. repeat split. Qed.
 
+(* reject direction: accepted in one read, rejected when split *)
 Lemma refute_reject_cr_boundary_limit :
   rdigest (rrun_segs rcfg10 rinit [w_e; w_f] [] []) = (OErr ELineTooLong, []) /\
   rdigest (rrun_segs rcfg10 rinit [concat [w_e; w_f]] [] []) = (OOk [], [(200, [], [], false, None)]).
@@ -147,7 +143,7 @@ Proof. split; vm_compute; reflexivity. Qed.
 Lemma ex_bounded_hyps : rwf rinit /\ rbounded (mkLimits 16 8 4 0) 0 rinit.
 Proof. split; [exact rwf_init|apply rbounded_init]. Qed.
 
-(* read boundaries in both special states, harmless: "... abc CR" | "LF 0 CRLF" | "CRLF" *)
+(* a read boundary in the special state, harmless, and one after the last-chunk line: "... abc CR" | "LF 0 CRLF" | "CRLF" *)
 Definition y_a : bytes := [72; 84; 84; 80; 47; 49; 46; 49; 32; 50; 48; 48; 32; 79; 75; 13; 10; 84; 114; 97; 110; 115; 102; 101; 114; 45; 69; 110; 99; 111; 100; 105; 110; 103; 58; 32; 99; 104; 117; 110; 107; 101; 100; 13; 10; 13; 10; 51; 13; 10; 97; 98; 99; 13].
 Definition y_b : bytes := [10; 48; 13; 10].
 Definition y_c : bytes := [13; 10].
@@ -160,11 +156,12 @@ Lemma ex_safe_unclean_reads :
   rrun_segs rcfg0 rinit [concat [y_a; y_b; y_c]] [] [] = rrun_segs rcfg0 rinit [y_a; y_b; y_c] [] [].
 Proof. vm_compute. repeat split. Qed.
 
-(* the refutation witnesses are exactly the excluded continuations *)
+(* the refutation witness is exactly the excluded continuation; the boundary after the last-chunk line
+   is safe whatever follows *)
 Lemma witnesses_unsafe :
-  rresume_st (fst (fst r1_ab)) w_b = false /\ rresume_st (fst (fst r1_cd)) w_d = false /\
-  rresume_st (fst (fst r1_cd)) w_d2 = false /\
-  rboundaries_safe rcfg0 rinit [w_a; w_b] [] = false /\ rboundaries_safe rcfg0 rinit [w_c; w_d2] [] = false.
+  rresume_st (fst (fst r1_ab)) w_b = false /\ rboundaries_safe rcfg0 rinit [w_a; w_b] [] = false /\
+  rresume_st (fst (fst r1_cd)) w_d = true /\ rresume_st (fst (fst r1_cd)) w_d2 = true /\
+  rboundaries_safe rcfg0 rinit [w_c; w_d2] [] = true.
 Proof. vm_compute. repeat split. Qed.
 
 (* a rejected segmentation: "... abc CR" | "LF zz CRLF" | "never read": same exception and messages as one read
